@@ -109,9 +109,9 @@ def run_case(ctx, mod, objs, case):
             ser = XmlSerializer(context=ctx, config=make_config(case.get("config")), writer=WRITERS[case.get("writer", "native")])
             xml = ser.render(obj, ns_map=ns_map_of(case.get("ns_map")))
             out["xml"] = xml
-            parser = XmlParser(context=ctx, handler=HANDLERS[case.get("handler", "native")],
-                               config=ParserConfig(fail_on_unknown_properties=True, fail_on_unknown_attributes=True,
-                                                   fail_on_converter_warnings=True))
+            pc = ParserConfig(fail_on_unknown_properties=True, fail_on_unknown_attributes=True, fail_on_converter_warnings=True) \
+                if case.get("strict", True) else ParserConfig()
+            parser = XmlParser(context=ctx, handler=HANDLERS[case.get("handler", "native")], config=pc)
             back = parser.from_string(xml, type(obj))
             d = eq(obj, back)
             out["equal"] = d is None
